@@ -13,7 +13,7 @@
    labels; the driver additionally overwrites every location reachable from the copy (and, in a
    second pass, from the source) and compares the other side with its snapshot. *)
 From Verif Require Import Go.Ty Go.Val Go.Equal Go.EqualProofs Go.CompareSpec Go.Canon
-  Copy.Model Copy.Erase Copy.Proofs Copy.Main Copy.Top.
+  Copy.Model Copy.Erase Copy.Proofs Copy.Main Copy.Top Copy.Frame.
 From Coq Require Import Lia.
 Open Scope nat_scope.
 Open Scope list_scope.
@@ -71,6 +71,15 @@ Proof.
   - specialize (Hnew l Hs). lia.
   - exact (Hdis l Hs H).
 Qed.
+
+(* under the reading of labels as addresses (Copy/Frame.v): an arbitrary write to any object of the
+   result leaves the source as it is, and an arbitrary write to any object of the source leaves
+   the result as it is *)
+Theorem copy_writes_invisible :
+  (forall l, In l (labels src) -> (l < n)%N) ->
+  (forall l, In l (labels src) -> ~ In l (labels dst)) ->
+  (forall l f, In l (labels r) -> upd l f src = src) /\ (forall l f, In l (labels src) -> upd l f r = r).
+Proof. intros Hnew Hdis. apply disjoint_frames. apply copy_src_label_disjoint; assumption. Qed.
 End DeepCopy.
 
 Section Field.
@@ -120,4 +129,8 @@ Proof. apply post. Qed.
 Theorem clone_src_label_disjoint :
   (forall l, In l (labels src) -> (l < n)%N) -> forall l, In l (labels r) -> ~ In l (labels src).
 Proof. intros Hnew l Hl Hs. specialize (Hnew l Hs). specialize (clone_fresh l Hl). lia. Qed.
+Theorem clone_writes_invisible :
+  (forall l, In l (labels src) -> (l < n)%N) ->
+  (forall l f, In l (labels r) -> upd l f src = src) /\ (forall l f, In l (labels src) -> upd l f r = r).
+Proof. intros Hnew. apply disjoint_frames. apply clone_src_label_disjoint; assumption. Qed.
 End Clone.
